@@ -319,11 +319,19 @@ class Interp:
 
     def n_var(self, n, pieces):
         ref, opts = n[1], n[2]
-        v = self.evaluate(ref)
+        o = dict((k, val) for k, val in opts)
+        try:
+            v = self.evaluate(ref)
+        except KeyError as e:
+            # missing= replaces an undefined name (C15)
+            if ref[0] == 'n' and 'missing' in o and e.args[0] == ref[1]:
+                self.out(pieces, o['missing'])
+                return
+            raise
         if v is UNSPEC:
             self.out(pieces, v)
             return
-        keys = [k for k, _ in opts]
+        keys = [k for k, _ in opts if k != 'missing']
         if not isinstance(v, (str, bytes)):
             v = to_text(v, self.encoding)
         if keys == ['html_quote']:
@@ -526,7 +534,13 @@ class Interp:
                 t = RuntimeError
         else:
             t = self.evaluate(tref)
-        v = self.render(body)
+        try:
+            v = self.render(body)
+        except Exception:
+            # the statement does not say what a raising body means (the
+            # implementation substitutes a fixed message)
+            self.unspec = True
+            raise
         raise t(v)
 
 
